@@ -1,14 +1,19 @@
 //! Correspondence harness: runs the real calloop (built from /repo with --cfg calloop_verif)
 //! on the same case files the extracted Coq model is run on, printing canonical result lines.
 
+mod m_seq;
 mod m_token;
 
 fn main() {
     // panics are data here: keep stderr quiet, report them as result lines
-    std::panic::set_hook(Box::new(|_| {}));
+    std::panic::set_hook(Box::new(|info| {
+        let msg = info.to_string();
+        m_seq::LAST_PANIC.with(|m| *m.borrow_mut() = msg);
+    }));
     let args: Vec<String> = std::env::args().collect();
     match args.get(1).map(|s| s.as_str()) {
         Some("token") => m_token::run(),
+        Some("seq") => m_seq::run(args.get(2).expect("scenario file")),
         _ => {
             eprintln!("usage: harness <token|...>");
             std::process::exit(2);
